@@ -3,6 +3,7 @@ package main
 import (
 	"bytes"
 	"context"
+	"crypto/sha256"
 	"crypto/sha512"
 	"fmt"
 	"hash"
@@ -109,7 +110,8 @@ func canonGen(r *hx.Rand) ([]rdf.Quad, string) {
 	add := func(s rdf.SubjectValue, pi int, o rdf.ObjectValue, g rdf.GraphNameValue) {
 		qs = append(qs, rdf.Quad{Triple: rdf.Triple{Subject: s, Predicate: p(pi), Object: o}, GraphName: g})
 	}
-	shape := hx.Pick(r, []string{"cycle", "clique", "copies", "star", "path", "random", "random", "selfref", "graphs", "two-cycles", "literal-mix", "grid"})
+	shape := hx.Pick(r, []string{"cycle", "clique", "copies", "star", "path", "random", "random", "selfref", "graphs", "two-cycles", "literal-mix", "grid",
+		"big-cycle", "overlap", "dense", "bn-graphs", "rot3", "graph-pairs"})
 	switch shape {
 	case "cycle":
 		n := 2 + r.Intn(6)
@@ -117,6 +119,56 @@ func canonGen(r *hx.Rand) ([]rdf.Quad, string) {
 		for i := range b {
 			add(b[i], 0, b[(i+1)%n], nil)
 		}
+	case "big-cycle": // more than ten temporary identifiers in one result
+		n := 8 + r.Intn(6)
+		b := bn(n)
+		for i := range b {
+			add(b[i], 0, b[(i+1)%n], nil)
+		}
+	case "overlap": // cycles over the same nodes which share edges
+		n := 4 + r.Intn(3)
+		b := bn(n)
+		for i := range b {
+			add(b[i], 0, b[(i+1)%n], nil)
+		}
+		step := 2 + r.Intn(2)
+		for i := range b {
+			if r.Chance(3, 4) {
+				add(b[i], 0, b[(i+step)%n], nil)
+			}
+		}
+	case "dense": // one predicate, many edges
+		n := 3 + r.Intn(4)
+		b := bn(n)
+		for i, k := 0, n+r.Intn(2*n); i < k; i++ {
+			add(hx.Pick(r, b), 0, hx.Pick(r, b), nil)
+		}
+	case "bn-graphs": // blank nodes as graph names among the tied nodes
+		n := 3 + r.Intn(3)
+		b := bn(n)
+		for i, k := 0, n+r.Intn(n); i < k; i++ {
+			var o rdf.ObjectValue = rdf.IRI("http://e/o")
+			if r.Bool() {
+				o = hx.Pick(r, b)
+			}
+			add(hx.Pick(r, b), r.Intn(2), o, hx.Pick(r, b))
+		}
+	case "graph-pairs": // pairs which name each other as subject and graph, linked asymmetrically
+		k := 2 + r.Intn(2)
+		b := bn(2 * k)
+		lit := rdf.Literal{Datatype: rdf.IRI(xsdNS + "string"), LexicalForm: "a"}
+		for i := 0; i < k; i++ {
+			add(b[2*i], 0, lit, b[2*i+1])
+			add(b[2*i+1], 0, lit, b[2*i])
+		}
+		for i, m := 0, 1+r.Intn(2); i < m; i++ {
+			add(b[r.Intn(2*k)], 1, b[r.Intn(2*k)], nil)
+		}
+	case "rot3": // rotational symmetry without reflection
+		b := bn(3)
+		add(b[0], 0, b[1], b[2])
+		add(b[1], 0, b[2], b[0])
+		add(b[2], 0, b[0], b[1])
 	case "two-cycles": // same size or not: isomorphic components
 		n, m := 2+r.Intn(3), 2+r.Intn(3)
 		b, c := bn(n), bn(m)
@@ -412,8 +464,29 @@ func c03Canon(r *hx.Rand, n int, out *hx.Out, _ []string) {
 		} else if w := canonSelfCheck(qs, base); w != "" {
 			oracle = w
 		}
-		// isomorphic copies: same bytes
-		for v := 0; v < 4 && oracle == ""; v++ {
+		// the harness' own RDFC-1.0, with ties broken both ways
+		rq, twice := canonRefQuads(qs)
+		rhf := hf
+		if rhf == nil {
+			rhf = sha256.New
+		}
+		ref1, _, lim1, _ := refCanonicalize(rq, rhf, false)
+		ref2, _, lim2, _ := refCanonicalize(rq, rhf, true)
+		ref3, _, _, _ := refCanonicalize(rq, rhf, false, true)
+		ref4, _, _, _ := refCanonicalize(rq, rhf, true, true)
+		// RDFC-1.0 itself depends on the order of its input here: some tie is broken differently, with a different result
+		orderDependent := ref1 != ref2 || ref1 != ref3 || ref1 != ref4
+		switch {
+		case oracle != "" || lim1 || lim2 || twice:
+			// nothing to compare with (a quad naming one blank node twice is left to the implementation's choice)
+		case !orderDependent && string(base.bytes) != ref1:
+			oracle = fmt.Sprintf("the output differs from RDFC-1.0 as the harness computes it (%s):\n%s--- reference ---\n%s", hname, base.bytes, ref1)
+		}
+		if orderDependent {
+			shape += " order-dependent"
+		}
+		// isomorphic copies: same bytes (unless RDFC-1.0 itself depends on the order for this dataset)
+		for v := 0; v < 4 && oracle == "" && !orderDependent; v++ {
 			vq := canonVariant(rr, qs)
 			vo := canonRun(vq, hf)
 			switch {
@@ -456,7 +529,7 @@ func c03Canon(r *hx.Rand, n int, out *hx.Out, _ []string) {
 		}
 		cs := hx.Case{Kind: "K/C03/canon", Impl: hx.X(string(base.bytes)), Class: shape + " " + hname, NonTri: len(base.ids) >= 2, Oracle: oracle,
 			Desc: fmt.Sprintf("%s %s: %s", shape, hname, strings.Join(desc, " | "))}
-		if hname == "fnv64a" && base.err == "" {
+		if hname == "fnv64a" && base.err == "" && !orderDependent { // where RDFC-1.0 depends on the order, Go's map iteration decides
 			cs.Line = canonLine(qs)
 		}
 		out.Emit(cs)
@@ -550,4 +623,29 @@ func c04Vectors(r *hx.Rand, n int, out *hx.Out, _ []string) {
 		out.Emit(hx.Case{Kind: "K/C04/w3c", Impl: fmt.Sprintf("%d bytes err=%q", len(o.bytes), o.err), Class: fmt.Sprintf("%s published=%v", hname, want != nil), NonTri: len(o.ids) > 0, Oracle: oracle,
 			Desc: name})
 	}
+}
+
+// canonRefQuads renders a dataset for the reference implementation; twice reports a quad naming one blank node twice
+func canonRefQuads(qs []rdf.Quad) ([]refQuad, bool) {
+	nm := hx.NewNamer()
+	twice := false
+	var out []refQuad
+	term := func(t rdf.Term) string {
+		if b, ok := t.(rdf.BlankNode); ok {
+			return nm.Name(b)
+		}
+		x := canonSerialize(rdf.Quad{Triple: rdf.Triple{Subject: rdf.IRI("s"), Predicate: rdf.IRI("p"), Object: t.(rdf.ObjectValue)}}, nil)
+		return strings.TrimSuffix(strings.TrimPrefix(x, "<s> <p> "), " .\n")
+	}
+	for _, q := range qs {
+		r := refQuad{s: term(q.Triple.Subject), p: term(q.Triple.Predicate), o: term(q.Triple.Object)}
+		if q.GraphName != nil {
+			r.g = term(q.GraphName.(rdf.Term))
+		}
+		if isBN(r.s) && (r.s == r.o || r.s == r.g) || isBN(r.o) && r.o == r.g {
+			twice = true
+		}
+		out = append(out, r)
+	}
+	return out, twice
 }
